@@ -115,6 +115,36 @@ Fixpoint run_ok (pl : plan) (ph : phase) (R : repo) (tr : list op) : bool :=
               end
   end.
 
+(* ---------- single-op faults: every op carries its outcome; a failed op leaves the state unchanged ----------
+   Structure of Execute under backend errors: an error of a Save (repack upload, index of new packs,
+   rewritten index) aborts prune before anything is deleted: after a failed Save no obsolete index and
+   no old pack may be removed.  Failed removals need no rule (failed pack removals are ignored by
+   prune, a failed index removal aborts it). *)
+Definition fop := (op * bool)%type.
+Definition frun (R : repo) (ftr : list fop) : repo :=
+  fold_left (fun (r : repo) (x : fop) => if snd x then apply r (fst x) else r) ftr R.
+Definition is_save (o : op) : bool := match o with SaveP _ _ | SaveI _ _ => true | _ => false end.
+
+Fixpoint run_okf (pl : plan) (ph : phase) (sf : bool) (R : repo) (ftr : list fop) : bool :=
+  match ftr with
+  | [] => true
+  | x :: r =>
+      if snd x then
+        match step_ok pl ph R (fst x) with
+        | None => false
+        | Some ph' =>
+            (* no removal of an obsolete index / old pack after a failed Save *)
+            if sf && match ph' with PhC => true | _ => false end then false
+            else run_okf pl ph' sf (apply R (fst x)) r
+        end
+      else run_okf pl ph (sf || is_save (fst x)) R r
+  end.
+
+(* prune has to report an error when a Save or an index removal failed (failed pack removals are
+   tolerated: leftover packs cannot damage the repository) *)
+Definition must_report (ftr : list fop) : bool :=
+  existsb (fun x => negb (snd x) && match fst x with RmP _ => false | _ => true end) ftr.
+
 (* ---------- cases ---------- *)
 (* observed pack info: (pack, pinfo) list + blob statistics *)
 Inductive sel_obs := OIncomplete | OPanic | OOther | OOk (ps : list (N * pinfo)) (b : bstats).
@@ -126,7 +156,12 @@ Inductive case :=
   | CTrace (R0 : repo) (used : list N) (pl : plan) (aborted : bool) (tr : list op)
   (* a crashed / failed prune: decoded state afterwards + direct observations
      (check --read-data clean, all kept snapshots restore bit-identically, prune re-run + check clean) *)
-  | CCrash (R : repo) (used : list N) (check_ok restore_ok rerun_ok : bool).
+  | CCrash (R : repo) (used : list N) (check_ok restore_ok rerun_ok : bool)
+  (* one prune run in which exactly one backend modification fails permanently and everything else
+     proceeds: state before, plan of that run, all attempted ops with their outcome, whether prune
+     reported an error, and direct observations afterwards *)
+  | CFault (R0 : repo) (used : list N) (pl : plan) (aborted : bool) (ftr : list fop)
+           (reported check_ok restore_ok rerun_ok : bool).
 
 Definition sumN (l : list N) : N := fold_left N.add l 0.
 
@@ -174,6 +209,14 @@ Definition check_case (c : case) : nat :=
       else if negb (run_ok pl PhA R0 tr) then 10%nat
       else let k := keep_blobs used (ents_of R0) (excl pl) in
            if subsetN k (keep pl) && subsetN (keep pl) k then 0%nat else 1%nat
+  | CFault R0 used pl aborted ftr rep c1 c2 c3 =>
+      if aborted then (match filter (fun x => snd x) ftr with [] => 0%nat | _ => 12%nat end)
+      else if negb (consistentb R0 used) then 11%nat
+      else if negb (valid_planb R0 used pl) then 9%nat
+      else if negb (run_okf pl PhA false R0 ftr) then 14%nat
+      else if negb (consistentb (frun R0 ftr) used) then 5%nat
+      else if must_report ftr && negb rep then 13%nat
+      else if negb c1 then 6%nat else if negb c2 then 7%nat else if negb c3 then 8%nat else 0%nat
   | CCrash R used c1 c2 c3 =>
       if negb (consistentb R used) then 5%nat
       else if negb c1 then 6%nat else if negb c2 then 7%nat else if negb c3 then 8%nat else 0%nat
